@@ -21,7 +21,8 @@ From MptV Require Import Base.Mem Base.Tactics C13.QueueModel C13.QueueProofs C1
   Cobs.QueueCodec.
 Local Open Scope nat_scope.
 
-Inductive rop := RWire (bytes : list byte) | RRecv | RGrow (n : nat) (fill : byte).
+Inductive rop := RWire (bytes : list byte) | RRecv | RGrow (n : nat) (fill : byte)
+  | RShift.   (* mpt_queue_shift alone (mpt_stream_poll calls it before it loads input) *)
 
 (* [rh_in]: ghost — the bytes the ring accepted so far *)
 Record rh := mkrh { rh_d : dqueue; rh_msgs : list (list byte); rh_stop : bool; rh_in : list byte }.
@@ -56,6 +57,11 @@ Definition rh_step (v : variant) (s : rh) (o : rop) : rh :=
     if qlen (dq_q (rh_d s)) =? 0
     then mkrh (mkdq (dq_q (rh_d s)) (dst_consumed (dq_st (rh_d s)))) (rh_msgs s) false (rh_in s)
     else rh_after s (dqueue_recv v (rh_d s))
+  | RShift =>
+    match dqueue_shift (rh_d s) with
+    | Ok d' => mkrh d' (rh_msgs s) false (rh_in s)
+    | _ => mkrh (rh_d s) (rh_msgs s) true (rh_in s)
+    end
   end.
 
 Definition rh_run (v : variant) (s : rh) (ops : list rop) : rh := fold_left (rh_step v) ops s.
@@ -354,7 +360,14 @@ Qed.
 Theorem rh_step_inv v s o : rh_inv v s -> rh_inv v (rh_step v s o).
 Proof.
   intros [Hh Hq]. unfold rh_step. destruct (rh_stop s) eqn:Est; [split; [assumption|rewrite Est; discriminate]|].
-  specialize (Hq eq_refl). destruct o as [bytes| |n fill].
+  specialize (Hq eq_refl). destruct o as [bytes| |n fill|].
+  4:{ (* shift alone *)
+    unfold flat_of in Hh. rewrite Est in Hh. pose proof Hh as (C & F & Hf & HI & Hc).
+    cbn [hs_msgs hs_stop hs_st hs_buf] in Hc.
+    destruct (dqueue_shift_spec v F (rh_d s) Hq Hc) as (c & d' & -> & Hd & Hst' & Hq' & Hcc).
+    split; [|intros _; exact Hq'].
+    pose proof (hinv_drop v (rh_in s) _ _ _ c Hh Hd) as H.
+    unfold flat_of. cbn [rh_d rh_msgs rh_stop rh_in]. rewrite Hst', Hcc. exact H. }
   - (* wire *)
     pose proof (qpush_spec (dq_q (rh_d s)) bytes Hq) as Hp.
     destruct ((length bytes <=? qmax (dq_q (rh_d s)) - qlen (dq_q (rh_d s))) &&
